@@ -105,7 +105,8 @@ func (f *fetcher) handleUpstream200(req *http.Request, resp *http.Response, key 
 func (f *fetcher) handleUpstream416(req *http.Request, resp *http.Response, key cache.CacheKey, clientHd *headers.HeaderDirectives, noRetry bool) (cached *cache.Entry[cachedRequestInfo], err error) {
 	slog.Debug("Upstream responded with 416 Range Not Satisfiable, retrying without Range header...", "url", req.URL)
 
-	if noRetry {
+	if noRetry || !f.cfg.Proxy.RetryOnRange416.Read() {
+		// already the retry, or the operator switched the retry off (proxy.retry_on_range_416)
 		slog.Debug("Not retrying 416 Range Not Satisfiable. Returning as is.", "url", req.URL)
 		return nil, nil
 	}
